@@ -73,7 +73,11 @@ def wide_nested(depth):
     return tuple(seq)
 
 
-def add_case(f, source):
+def add_case(f, source, given_name=None, how=""):
+    if given_name and f.name != given_name:
+        # "a named formula prints its name": the name the caller gave is the name
+        fails.append(dict(signature="C13:named", what="%s was given name=%r but prints %r / %r" % (how or source, given_name, str(f), repr(f)),
+                          string=str(f), source=source))
     if not printable(f.structure) or len(f.structure) == 0:
         return
     s, r = str(f), repr(f)
@@ -124,7 +128,9 @@ while len(cases) < ncase:
     try:
         if k == 0:
             tree = treegen.gen_tree(rng.randint(0, 4))
-            add_case(formula(treegen.render(tree)), "parsed")
+            text = treegen.render(tree)
+            nm = rng.choice([None, None, None, "parsed sample"])
+            add_case(formula(text, name=nm), "parsed", given_name=nm, how="formula(%r, name=%r)" % (text, nm))
         elif k == 1:
             add_case(formula(wide_nested(rng.randint(0, 3)), name=rng.choice([None, None, None, "sample"])), "nested")
         elif k == 2:
@@ -143,7 +149,14 @@ while len(cases) < ncase:
             parts = []
             for _ in range(rng.randint(2, 4)):
                 parts += [rng.choice(SIMPLE), float("%.4g" % (10 ** rng.uniform(-3, 6)))]
-            add_case((mix_by_weight if rng.random() < 0.5 else mix_by_volume)(*parts), "mixture")
+            fn = mix_by_weight if rng.random() < 0.5 else mix_by_volume
+            kw = {}
+            if rng.random() < 0.4:
+                kw["name"] = rng.choice(["alloy", "sample 7", "mix"])
+            if rng.random() < 0.3:
+                kw[rng.choice(["density", "natural_density"])] = round(rng.uniform(0.5, 12), 3)
+            add_case(fn(*parts, **kw), "mixture", given_name=kw.get("name"),
+                     how="%s(%s%s)" % (fn.__name__, ", ".join(repr(x) for x in parts), "".join(", %s=%r" % kv for kv in kw.items())))
         else:
             f = formula(wide_nested(2))
             _ = (str(f), f.hill)
